@@ -207,9 +207,13 @@ def generate(rng, tier):
             cap = tygen.gen_capacity(rng, False)
             t = {"k": "fix", "e": e, "n": cap}
             b = gen_base(rng)
+            if rng.random() < 0.2:
+                b = {"o": "leaf", "v": [0], "how": "set", "raw": False}
             k = min(cap, rng.choice([1, 2, 3, 5]))
             cases.append({"kind": "elems", "type": t, "base": b, "count": k,
                           "plan": plan(rng, [tygen.elem_offset_op(e, b, j) for j in range(k)], budget)})
+            if b["o"] == "leaf" and b["v"] == [0]:
+                cases[-1]["default_base"] = True   # the argument is left out: the documented default is the empty prefix
         else:
             cases.append(gen_intr(rng, names))
         streams.append("random")
@@ -261,7 +265,8 @@ def _run_impl_raw(cases):
                 T = tygen.build(case["type"])
                 base = tygen.build_bls(case["base"])
                 res = []
-                for (i, off), pl in zip(itertools.islice(T.enumerate_elements_with_offsets(base), case["count"]), case["plan"]):
+                walk = T.enumerate_elements_with_offsets() if case.get("default_base") else T.enumerate_elements_with_offsets(base)
+                for (i, off), pl in zip(itertools.islice(walk, case["count"]), case["plan"]):
                     res.append({"i": i, "off": observe(off, pl)})
                 out.append({"elems": res})
             else:
